@@ -107,11 +107,13 @@ class VersionedDataHandler:
         # so you can think of this df as a dataframe of versioned results for one particular county
         def compute_estimated_margin(df):
             # Convert columns to NumPy arrays for faster computation
-            results_turnout = df["results_turnout"].values
-            percent_expected_vote = df["percent_expected_vote"].values
-            results_dem = df["results_dem"].values
-            results_gop = df["results_gop"].values
-            results_weights = df["results_weights"].values
+            # as floats: the columns are integers when read from a csv and object typed when some of the versions were
+            # empty tables (no results yet); the arithmetic below needs true division with nan / inf for empty batches
+            results_turnout = df["results_turnout"].to_numpy(dtype=float)
+            percent_expected_vote = df["percent_expected_vote"].to_numpy(dtype=float)
+            results_dem = df["results_dem"].to_numpy(dtype=float)
+            results_gop = df["results_gop"].to_numpy(dtype=float)
+            results_weights = df["results_weights"].to_numpy(dtype=float)
 
             # sometimes the percent_expected_vote we have recorded is non-monotonic
             # because the AP adjusted its model after the fact. We correct for this here.
